@@ -163,8 +163,11 @@ func TestVerifCtl_C02_Concurrent(t *testing.T) {
 		{W: 1, N: 3, C: 1, RegTask: true, Openers: [][]int{{2}, {2, 3}}},
 		{W: 2, N: 4, C: 0, ReReg: true, Openers: [][]int{{1, 3}, {2}}},
 		{W: 1, N: 4, C: 0, Openers: [][]int{{1}, {1, 2}}},
+		// the same announcement delivered twice at once (the metadata event handler and the replay of the log at
+		// activation both register what they see) while a message is opened
+		{W: 1, N: 4, C: 1, RegTask: true, ReReg: true, Openers: [][]int{{2}}},
 	}
-	maxRuns, maxPre := 900, 2
+	maxRuns, maxPre := 8000, 1
 	if vacct.Thorough() {
 		scs = append(scs, c02cScenario{W: 3, N: 6, C: 1, RegTask: true, ReReg: true, Openers: [][]int{{2, 3, 4}, {4, 2}}}, c02cScenario{W: 1, N: 4, C: 0, Openers: [][]int{{1}, {1}, {2}}})
 		maxRuns, maxPre = 40000, 3
